@@ -7,7 +7,6 @@ use crate::cfg::{build, build_with_stages, Case, Cfg};
 use crate::gen::*;
 use crate::lang::{fold, single};
 use crate::runner::{Ctx, Stats, Tier};
-use proptest::prelude::*;
 use serde_json::json;
 
 pub const CHECK: Check = Check {
